@@ -264,7 +264,7 @@ pub fn undisturbed(trace: &[String]) -> (bool, String) {
 }
 
 pub fn run(thorough: bool, mut rng: Rng, mut out: Out) {
-    let n = if thorough { 20000 } else { 2500 };
+    let n = if thorough { 120000 } else { 2500 };
     for k in 0..n {
         let n_ops = rng.range(2, 8) as usize;
         let script = gen_script(&mut rng, n_ops, k % 5 == 4, k % 3 == 2);
